@@ -290,11 +290,16 @@ func (c *compiler) compileType(y *Type, parent Leafable, isUnion bool) error {
 		return nil
 	}
 	var builtinType bool
+	// the enums of the typedef this type restricts, with the values they have there
+	var inheritedEnums val.EnumList
 	y.format, builtinType = val.TypeAsFormat(y.ident)
 	if !builtinType {
 		tdef, err := c.findTypedef(y, parent, y.ident)
 		if err != nil {
 			return err
+		}
+		if y.enums != nil {
+			inheritedEnums = tdef.dtype.enum
 		}
 
 		// Don't use resolve here because if a typedef is a leafref, you want
@@ -367,7 +372,11 @@ func (c *compiler) compileType(y *Type, parent Leafable, isUnion bool) error {
 		y.enum = make(val.EnumList, len(y.enums))
 		nextId := 0
 		for i, item := range y.enums {
-			if item.val > 0 {
+			if inherited, found := inheritedEnums.ByLabel(item.ident); found {
+				// RFC 7950 9.6.4.2: an enum of a restricted enumeration keeps its value
+				nextId = inherited.Id
+				item.val = nextId
+			} else if item.val > 0 {
 				nextId = item.val
 			} else {
 				item.val = nextId
